@@ -200,18 +200,37 @@ def run(ctx, res):
             g = U.make_game(rng=rng, code=src, version=8)
         except Exception:
             continue
-        cart = os.path.join(ctx.tmp, 'cli%d.p8' % i)
+        # (a .p8.png cart stores the code as is: only there can the code end without a line feed)
+        png = (i % 2 == 1)
+        if png:
+            try:
+                g = U.make_game(rng=rng, code=src.rstrip(b'\r\n \t'), version=8)
+                src = src.rstrip(b'\r\n \t')
+            except Exception:
+                png = False
+        ext = '.p8.png' if png else '.p8'
+        cart = os.path.join(ctx.tmp, 'cli%d%s' % (i, ext))
         gfile.to_file(g, cart)
         res.evaluations += 1
-        res.count('cli')
+        res.count('cli' + ext)
         import contextlib, io
         buf = io.StringIO()
+        rc = rc2 = None
         with U.quiet(), contextlib.redirect_stdout(buf), contextlib.redirect_stderr(buf):
-            rc = tool.main(['-q', 'luamin', cart])
+            try:
+                rc = tool.main(['-q', 'luamin', cart])
+            except Exception as e:
+                rc = 'raised %r' % (e,)
             lua_src = os.path.join(ctx.tmp, 'cli%d.lua' % i)
             open(lua_src, 'wb').write(src)
-            rc2 = tool.main(['-q', 'build', '--lua', lua_src, '--lua-minify', os.path.join(ctx.tmp, 'cli%d_b.p8' % i)])
-        for path, what in ((os.path.join(ctx.tmp, 'cli%d_fmt.p8' % i), 'p8tool luamin'), (os.path.join(ctx.tmp, 'cli%d_b.p8' % i), 'build --lua-minify')):
+            try:
+                rc2 = tool.main(['-q', 'build', '--lua', lua_src, '--lua-minify', os.path.join(ctx.tmp, 'cli%d_b.p8' % i)])
+            except Exception as e:
+                rc2 = 'raised %r' % (e,)
+        if rc != 0 or rc2 != 0:
+            res.fail('C01:cli:' + hx(src)[:60], 'p8tool luamin / build --lua-minify failed on a valid program (rc=%s / %s)' % (rc, rc2), {'source': hx(src), 'cart': ext})
+            continue
+        for path, what in ((os.path.join(ctx.tmp, 'cli%d_fmt%s' % (i, ext)), 'p8tool luamin'), (os.path.join(ctx.tmp, 'cli%d_b.p8' % i), 'build --lua-minify')):
             if not os.path.exists(path):
                 res.fail('C01:cli:' + hx(src)[:60], '%s wrote no output (rc=%r/%r)' % (what, rc, rc2), {'source': hx(src)})
                 continue
